@@ -258,7 +258,9 @@ func (g *tgen) quasiSource(k ek, n int) vx {
 		// quasiquote: a leaf list handed out of the template, or the template
 		g.route("src:quasiquote")
 		inner := g.litBody(k, n)
-		switch g.n(0, 3, "qq") {
+		switch g.u(0, 5, "qq") {
+		case 4, 5:
+			return vx{"(quasiquote ((unquote-splicing '" + inner + ")))", "list", k, n, "quasiquote"}
 		case 0:
 			return vx{"(car (quasiquote (" + inner + " (unquote (+ 1 2)))))", "list", k, n, "quasiquote"}
 		case 1:
@@ -306,7 +308,9 @@ func (g *tgen) view(s vx) vx {
 	c := s.code
 	switch s.kind {
 	case "list":
-		switch op := g.u(0, 29, "lview"); op {
+		switch op := g.u(0, 33, "lview"); op {
+		case 30, 31, 32, 33:
+			return g.spliceView(s)
 		case 0, 1:
 			g.route("view:cdr")
 			return vx{"(cdr " + c + ")", "list", s.ek, dec(s.n), s.src}
@@ -464,6 +468,56 @@ func (g *tgen) view(s vx) vx {
 	g.route("view:bytes-slice")
 	i, j := g.idx(s.n)
 	return vx{fmt.Sprintf("(slice 'bytes %s %d %d)", c, i, j), "bytes", ekInt, span(s.n, i, j), s.src}
+}
+
+// spliceView derives a list from s through a quasiquote template, in every
+// splice shape: the template that is exactly one unquote-splicing (the shape
+// used to forward &rest arguments), head / middle / tail / double splices,
+// nested templates, whole-value unquote, and the forwarding function / macro.
+func (g *tgen) spliceView(s vx) vx {
+	c := s.code
+	e := func() string { return g.atoms(s.ek, 1)[0] }
+	switch g.u(0, 13, "splice") {
+	case 0, 1, 2, 3:
+		g.route("view:qq-lone-splice")
+		return vx{"(quasiquote ((unquote-splicing " + c + ")))", "list", s.ek, s.n, s.src}
+	case 4:
+		g.route("view:qq-head-splice")
+		return vx{"(quasiquote ((unquote-splicing " + c + ") " + e() + "))", "list", s.ek, add(s.n, 1), s.src}
+	case 5:
+		g.route("view:qq-tail-splice")
+		return vx{"(quasiquote (" + e() + " (unquote-splicing " + c + ")))", "list", s.ek, add(s.n, 1), s.src}
+	case 6:
+		g.route("view:qq-middle-splice")
+		return vx{"(quasiquote (" + e() + " (unquote-splicing " + c + ") " + e() + "))", "list", s.ek, add(s.n, 2), s.src}
+	case 7:
+		g.route("view:qq-double-splice")
+		return vx{"(quasiquote ((unquote-splicing " + c + ") (unquote-splicing " + c + ")))", "list", s.ek, add(s.n, s.n), s.src}
+	case 8:
+		g.route("view:qq-nested-lone-splice")
+		if g.pct(50, "nest") {
+			return vx{"(car (quasiquote (((unquote-splicing " + c + ")))))", "list", s.ek, s.n, s.src}
+		}
+		return vx{"(second (quasiquote (" + e() + " ((unquote-splicing " + c + ")) " + e() + ")))", "list", s.ek, s.n, s.src}
+	case 9:
+		g.route("view:qq-unquote")
+		if g.pct(50, "uq") {
+			return vx{"(quasiquote (unquote " + c + "))", "list", s.ek, s.n, s.src}
+		}
+		return vx{"(car (quasiquote ((unquote " + c + ") " + e() + ")))", "list", s.ek, s.n, s.src}
+	case 10:
+		g.route("view:qq-forward-rest")
+		return vx{"(apply (lambda (&rest r) (quasiquote ((unquote-splicing r)))) " + c + ")", "list", s.ek, s.n, "rest"}
+	case 11:
+		g.route("view:qq-forward-fn")
+		return vx{"((lambda (y) (quasiquote ((unquote-splicing y)))) " + c + ")", "list", s.ek, s.n, s.src}
+	case 12:
+		g.route("view:qq-lone-splice-of-view")
+		return vx{"(quasiquote ((unquote-splicing (" + g.oneOf("qv", "cdr", "rest") + " " + c + "))))", "list", s.ek, dec(s.n), s.src}
+	default:
+		g.route("view:qq-splice-twice")
+		return vx{"(quasiquote ((unquote-splicing (quasiquote ((unquote-splicing " + c + "))))))", "list", s.ek, s.n, s.src}
+	}
 }
 
 // ---------- sinks: in-place / capacity-sensitive builtins ----------
